@@ -24,8 +24,25 @@ def _alarm(signum, frame):
 WARN_FILTER = "ignore"
 
 
-def guarded(fn, seconds=20):
-    """Run fn() -> ('ok', value) | ('exc', ExceptionTypeName, message)."""
+RETRIED_TIMEOUTS = {"n": 0}
+
+
+def guarded(fn, seconds=20, retry=True):
+    """Run fn() -> ('ok', value) | ('exc', ExceptionTypeName, message).
+
+    A call that does not finish within `seconds` on a loaded machine (the dominant-vector cases of C14 expand
+    1e7..1e8 respondents for the margin medians) is retried ONCE with a 300 s limit before the timeout is
+    reported: a timeout is a verdict about the machine unless it persists (alarm on the unchanged tree in the
+    thorough sweep of 2026-10-02, C14 case 1076, while 14 other jobs were running; DESIGN 8.3).  Every thunk
+    handed to `guarded` builds fresh objects or reads properties, so running it twice is harmless."""
+    r = _guarded_once(fn, seconds)
+    if retry and r[0] == "exc" and r[1] == "Timeout":
+        RETRIED_TIMEOUTS["n"] += 1
+        r = _guarded_once(fn, 300)
+    return r
+
+
+def _guarded_once(fn, seconds):
     old = signal.signal(signal.SIGALRM, _alarm)
     signal.alarm(seconds)
     try:
